@@ -63,9 +63,24 @@ def corpus(rng):
     return c
 
 
+def decoder_part(ctx):
+    """util::DecodeUTF8 / IsUTF8 on ill-formed text that ENDS inside a multi-byte sequence, in a heap block of exactly that size: nothing
+    behind the text may be read (ASan), whatever the verdict"""
+    trunc = [b"\xe2\x82", b"\xf0\x9f", b"\xf0\x9f\x98", b"\xc3", b"\xe2", b"\xf0", b"ab\xe2\x82", b"x\xf0\x9f\x98", b"\xed\xa0", b"\xf4\x8f\xbf", b"\xe2\x82\xac\xe2\x82", b"\x80", b"\xbf\xbf"]
+    ops = ["utf8.decode " + hx(t) for t in trunc] + [f"utf8.isutf8 {hx(t)} {al}" for t in trunc for al in (0, 3, 7)]
+    res = pvlib.run_lines(ctx.impl(), ops, env=pvlib.san_env(), timeout=120)
+    ctx.count("decoder-truncated", len(ops), ops)
+    for o, x in zip(ops, res):
+        if x.startswith("SAN") or x.startswith("CRASH") or x.startswith("HANG") or not (x.startswith("ok") or x.startswith("ERR") or x in ("true", "false")):
+            pvlib.report_violation(ctx, "c20:decoder:" + o, {"ops": [o], "impl": x[:300]},
+                                   summary=f"{o} (the text ends inside a multi-byte sequence, in a heap block of exactly its size): {x[:120]}")
+            return
+
+
 def run(ctx):
     rng = ctx.rng
     formatter_part(ctx)
+    decoder_part(ctx)
     tools = []
     sub = os.path.join(ctx.tmp, "sub.txt")
     open(sub, "wb").write(b"a\n\xff\n")
